@@ -19,6 +19,8 @@ META = {
     "level_note": "Bounds: one wrapped name, <= 3 files, data symbols, x86-64 non-PIE. Configurations where GNU ld itself disagrees with the rule because of its order-sensitive archive scan are not judged (C03 covers loading).",
     "engine": "tlc",
 }
+# deviations this property owns (the others are recorded under the property they belong to)
+OWN = {"quirks": {"wrapNoDef"}, "loading": False}
 ASPECTS = ("error", "loaded", "bind")
 
 
@@ -27,7 +29,7 @@ def run(ctx):
         plan = [("mc/SymRes_c33_quick.cfg", 900, 2)]
     else:
         plan = [("mc/SymRes_c33_quick.cfg", 900, 1), ("mc/SymRes_c33_triple.cfg", 2400, 4)]
-    cov = symres.run_plan(ctx, PROP, plan, ASPECTS, "ld")
+    cov = symres.run_plan(ctx, PROP, plan, ASPECTS, "ld", skip_load_divergent=OWN)
     return {
         "level": "model_checking",
         "coverage": cov,
